@@ -6,6 +6,7 @@ import (
 	"errors"
 	"fmt"
 	"io"
+	"net/http"
 	"reflect"
 	"strings"
 	"sync"
@@ -60,6 +61,8 @@ func (h *PanicSrv) doPanic(payload string) {
 		panic(e)
 	case "badstringer":
 		panic(badStringer{})
+	case "aborthandler": // the sentinel net/http treats specially
+		panic(http.ErrAbortHandler)
 	}
 }
 
@@ -150,7 +153,7 @@ func init() {
 		Cfg:      vsched.Config{Horizon: 10 * time.Second},
 		Params: func(tier string) []Param {
 			var ps []Param
-			payloads := []string{"string", "error", "nilmap", "nilderef", "custom", "nil", "nilerr", "badstringer"}
+			payloads := []string{"string", "error", "nilmap", "nilderef", "custom", "nil", "nilerr", "badstringer", "aborthandler"}
 			kinds := []string{"unary", "notify", "chan", "reverse", "cancelled"}
 			for _, k := range kinds {
 				for i, pl := range payloads {
@@ -278,6 +281,9 @@ func panicBody(s *vsched.Sched, p Param) {
 		if v, ok := obs.Get("ret-H2"); !ok || v != "61/<nil>" {
 			s.Violate("C13: a subsequent healthy call failed: %q (returned=%v)", v, ok)
 		}
+		if v, ok := obs.Get("ret-H3"); !ok || v != "62/<nil>" {
+			s.Violate("C13: a subsequent healthy call (concurrent with another one) failed: %q (returned=%v)", v, ok)
+		}
 		s.SetObs(obs.String())
 	}
 	var nCancel atomic.Int32
@@ -373,6 +379,11 @@ func panicBody(s *vsched.Sched, p Param) {
 	s.Go("zsecond", func() {
 		s.Env("second-go")
 		obs.Set("ret-again", "%s", boom())
+		// two healthy calls of the same method at the same time, after the panics
+		s.Go("zthird", func() {
+			v, err := cli.Echo(context.Background(), 62)
+			obs.Set("ret-H3", "%d/%v", v, err)
+		})
 		v, err := cli.Echo(context.Background(), 61)
 		obs.Set("ret-H2", "%d/%v", v, err)
 	})
